@@ -1459,22 +1459,20 @@ theorem procToks_sameNames (sub : Option (List (List Bytes))) : ∀ (toks : List
         · cases h
         · split at h <;> first | cases h; exact (fun n => hs n) | cases h
       · split at h
-        · cases h
-        · split at h
-          · -- gzip
-            split at h
-            · cases h; exact sameNames_add st vGzip hs
-            · split at h
-              · cases h
-              · cases h; exact sameNames_add st vGzip hs
+        · -- gzip
+          split at h
+          · cases h; exact sameNames_add st vGzip hs
           · split at h
-            · -- zstd
-              split at h
-              · cases h; exact sameNames_add st vZstd hs
-              · split at h
-                · cases h; exact sameNames_add st vZstd hs
-                · cases h
             · cases h
+            · cases h; exact sameNames_add st vGzip hs
+        · split at h
+          · -- zstd
+            split at h
+            · cases h; exact sameNames_add st vZstd hs
+            · split at h
+              · cases h; exact sameNames_add st vZstd hs
+              · cases h
+          · split at h <;> cases h
 
 theorem procBlock_sameNames : ∀ (block : List Line) (st st' : CfState),
     procBlock block st = .ok st' → SameNames st → SameNames st'
